@@ -275,7 +275,10 @@ func (it *TxnIterator) materializeEntry(entry *kv.Entry, cf kv.ColumnFamily, use
 	it.entry.Version = version
 	if kv.IsValuePtr(entry) {
 		if it.opt.KeyOnly {
-			it.entry.Value = entry.Value
+			// Copy the pointer bytes: entry.Value aliases memtable/block memory and the
+			// inline branch below appends into it.entry.Value[:0].
+			it.valueBuf = append(it.valueBuf[:0], entry.Value...)
+			it.entry.Value = it.valueBuf
 			it.item.valueBuf = it.item.valueBuf[:0]
 		} else {
 			var vp kv.ValuePtr
